@@ -12,6 +12,8 @@ From SVP Require Import Base.Num Base.Cplx Model.Bezier Model.Length
 Import ListNotations.
 Local Open Scope R_scope.
 
+Ltac rfield := match goal with |- ?x = ?y => change (@eq R x y) end; unfold Rdiv; ring.
+
 (* ---------------- segment_length <= arc length ---------------- *)
 Section SegLen.
   Variable g : C1curve.
@@ -255,9 +257,10 @@ Section Part.
   Proof.
     intros H. unfold curve_len, arclen.
     pose proof (speed_continuous (gdx g) (gdy g) (gdx_c g) (gdy_c g)) as Cs.
-    eapply Rle_trans; [apply (RInt_cauchy_schwarz (speed (gdx g) (gdy g)) Cs); auto|].
+    eapply Rle_trans;
+      [apply (RInt_cauchy_schwarz (speed (gdx g) (gdy g)) Cs (speed_nonneg _ _) a b H)|].
     right. f_equal. f_equal.
-    rewrite (RInt_of_antideriv G (fun t => speed (gdx g) (gdy g) t ^ 2)); [reflexivity| |].
+    apply (RInt_of_antideriv G (fun t => speed (gdx g) (gdy g) t ^ 2)).
     - intros t. rewrite speed_sq. apply G_d.
     - intros t. apply cf2. exact Cs.
   Qed.
@@ -267,7 +270,7 @@ Section Part.
     <= snd (part_bracket NumR NumTR pt G a ps).
   Proof.
     induction ps as [|p r IH]; intros a Hs.
-    - cbn. unfold curve_len. rewrite arclen_point; auto using gdx_c, gdy_c. lra.
+    - cbn [part_bracket fst snd last zero NumR]. unfold curve_len. rewrite arclen_point. lra.
     - destruct Hs as [Hap Hr]. rewrite last_cons. cbn [part_bracket fst snd].
       specialize (IH p Hr).
       pose proof (arclen_additive _ _ (gdx_c g) (gdy_c g) a p (last r p)) as Add.
@@ -286,37 +289,79 @@ Proof.
   intros H. apply andb_prop in H as [H1 H2]. split; [now apply Rle_b_true|auto].
 Qed.
 
+Lemma part_bracket_ext pt1 pt2 G1 G2 : (forall t, pt1 t = pt2 t) -> (forall t, G1 t = G2 t) ->
+  forall ps a, part_bracket NumR NumTR pt1 G1 a ps = part_bracket NumR NumTR pt2 G2 a ps.
+Proof.
+  intros Hp Hg. induction ps as [|p r IH]; intros a; [reflexivity|].
+  cbn [part_bracket]. rewrite IH, !Hp, !Hg. reflexivity.
+Qed.
+
 (* ---------------- the elliptical arc ---------------- *)
 Section Arc.
   Variables rx ry cph sph : R.
   Variable center : Cplx R.
   Variables theta delta : R.
 
+  Definition angR (t : R) : R := (theta + t * delta) * PI / 180.
+  Definition kR : R := delta * PI / 180.
+  Definition arc_x t := rx * cph * cos (angR t) - ry * sph * sin (angR t) + fst center.
+  Definition arc_y t := rx * sph * cos (angR t) + ry * cph * sin (angR t) + snd center.
+  Definition arc_dx t := kR * (- rx * cph * sin (angR t) - ry * sph * cos (angR t)).
+  Definition arc_dy t := kR * (- rx * sph * sin (angR t) + ry * cph * cos (angR t)).
+  Definition arc_GR t :=
+    kR * kR * (cph * cph + sph * sph) * (rx * rx + ry * ry) / 2 * t
+    + kR * (cph * cph + sph * sph) * (ry * ry - rx * rx) / 4 * (2 * sin (angR t) * cos (angR t)).
+
   Definition arc_curve : C1curve.
   Proof.
-    refine (@mkC1 (fun t => fst (arc_pt NumR NumTR rx ry cph sph center theta delta t))
-                  (fun t => snd (arc_pt NumR NumTR rx ry cph sph center theta delta t))
-                  (fun t => fst (arc_d1 NumR NumTR rx ry cph sph theta delta t))
-                  (fun t => snd (arc_d1 NumR NumTR rx ry cph sph theta delta t)) _ _ _ _);
-      destruct center; intros t; unfold arc_pt, arc_d1, arc_angle; cbn -[PI cos sin].
-    - auto_derive; [exact I|cbn -[PI cos sin]; ring].
-    - auto_derive; [exact I|cbn -[PI cos sin]; ring].
+    refine (@mkC1 arc_x arc_y arc_dx arc_dy _ _ _ _); intros t;
+      unfold arc_x, arc_y, arc_dx, arc_dy, angR, kR.
+    - auto_derive; [exact I|rfield].
+    - auto_derive; [exact I|rfield].
     - match goal with |- continuous ?f ?t =>
         apply (@ex_derive_continuous R_AbsRing R_NormedModule f t); auto_derive; exact I end.
     - match goal with |- continuous ?f ?t =>
         apply (@ex_derive_continuous R_AbsRing R_NormedModule f t); auto_derive; exact I end.
   Defined.
 
-  Lemma arc_G_deriv t :
-    is_derive (arc_G NumR NumTR rx ry cph sph theta delta) t
-              (gdx arc_curve t ^ 2 + gdy arc_curve t ^ 2).
+  (* the model's Arc.point / Arc.derivative / arc_G are these functions *)
+  Lemma arc_pt_curve t :
+    arc_pt NumR NumTR rx ry cph sph center theta delta t = (gx arc_curve t, gy arc_curve t).
   Proof.
-    unfold arc_G, arc_angle. cbn -[PI cos sin].
-    auto_derive; [exact I|].
-    unfold arc_d1, arc_angle. cbn -[PI cos sin].
-    set (an := (theta + t * delta) * PI / _).
-    pose proof (sin2_cos2 an) as SC. unfold Rsqr in SC.
-    set (S := sin an) in *. set (C := cos an) in *.
-    replace 1 with (S * S + C * C) at 1 by exact SC. Show.
-  Abort.
+    unfold arc_pt, arc_angle, re, im. rewrite lit_R. reflexivity.
+  Qed.
+  Lemma arc_d1_curve t :
+    arc_d1 NumR NumTR rx ry cph sph theta delta t = (gdx arc_curve t, gdy arc_curve t).
+  Proof.
+    unfold arc_d1, arc_angle. rewrite lit_R. reflexivity.
+  Qed.
+  Lemma arc_G_R t : arc_G NumR NumTR rx ry cph sph theta delta t = arc_GR t.
+  Proof.
+    unfold arc_G, arc_angle. rewrite !lit_R. reflexivity.
+  Qed.
+
+  Lemma arc_GR_deriv t : is_derive arc_GR t (gdx arc_curve t ^ 2 + gdy arc_curve t ^ 2).
+  Proof.
+    unfold arc_GR. cbn [gdx gdy arc_curve]. unfold arc_dx, arc_dy.
+    assert (D : is_derive angR t kR) by (unfold angR, kR; auto_derive; [exact I|rfield]).
+    auto_derive.
+    - repeat split; eexists; exact D.
+    - replace (Derive (fun x : R => angR x) t) with kR
+        by (symmetry; apply is_derive_unique; exact D).
+      pose proof (sin2_cos2 (angR t)) as SC. unfold Rsqr in SC.
+      set (S := sin (angR t)) in *. set (C := cos (angR t)) in *.
+      replace (rx * rx + ry * ry) with ((rx * rx + ry * ry) * (S * S + C * C)) by (rewrite SC; ring).
+      field.
+  Qed.
+
+  Theorem arc_part_bracket a ps : sorted_from a ps ->
+    let b := part_bracket NumR NumTR (arc_pt NumR NumTR rx ry cph sph center theta delta)
+                          (arc_G NumR NumTR rx ry cph sph theta delta) a ps in
+    fst b <= curve_len arc_curve a (last ps a) <= snd b.
+  Proof.
+    intros Hs b. unfold b.
+    rewrite (part_bracket_ext _ (fun t => (gx arc_curve t, gy arc_curve t)) _ arc_GR
+                              arc_pt_curve arc_G_R).
+    apply part_bracket_encloses; auto. apply arc_GR_deriv.
+  Qed.
 End Arc.
